@@ -718,3 +718,869 @@ func ruleDictIterateModify(c *Ctx) {
 		c.S.Trivial("R-dict-iterate-modify", "none", "-", "no iterator loop over a dictionary")
 	}
 }
+
+// ---------------------------------------------------------------- R-C14-describe-param
+
+const textDescribeParam = "R-C14-describe-param: a function of a command context that is handed another connection's state to describe (CLIENT LIST / CLIENT INFO call it once per registered connection) reads session fields — name, selected database, protocol version, id, user — from the connection it was given, never from the connection that runs the command: otherwise every line of CLIENT LIST shows the asker's name or database"
+
+func ruleC14DescribeParam(c *Ctx) {
+	c.S.Rule("R-C14-describe-param", textDescribeParam, 1)
+	fCS := c.Field("cmdContext", "cs")
+	if fCS == nil {
+		c.S.Undecided("R-C14-describe-param", "anchors", "-", "cmdContext.cs not found")
+		return
+	}
+	n := 0
+	for _, fn := range c.SrcFuncs() {
+		if fn.Parent() != nil || fn.Signature.Recv() == nil || !c.isPkgType(fn.Signature.Recv().Type(), "cmdContext") {
+			continue
+		}
+		var p *ssa.Parameter
+		for _, q := range fn.Params[1:] {
+			if c.isPkgType(q.Type(), "clientState") {
+				p = q
+			}
+		}
+		if p == nil {
+			continue
+		}
+		n++
+		key := fnName(fn) + ":reads-the-given-connection"
+		bad := ""
+		var pos token.Pos
+		for _, in := range instrsOf(fn) {
+			fa, ok := in.(*ssa.FieldAddr)
+			if !ok || !c.isPkgType(fa.X.Type(), "clientState") {
+				continue
+			}
+			// the base: the parameter, or ctx.cs?
+			if _, f := loadedField(fa.X); f == fCS {
+				bad = fieldOf(fa).Name()
+				pos = fa.Pos()
+			}
+		}
+		// calls of clientState methods on ctx.cs
+		for _, in := range instrsOf(fn) {
+			call, ok := in.(ssa.CallInstruction)
+			if !ok {
+				continue
+			}
+			g := call.Common().StaticCallee()
+			if g == nil || g.Signature.Recv() == nil || !c.isPkgType(g.Signature.Recv().Type(), "clientState") || len(call.Common().Args) == 0 {
+				continue
+			}
+			if _, f := loadedField(call.Common().Args[0]); f == fCS {
+				bad = fnName(g)
+				pos = call.Pos()
+			}
+		}
+		if bad != "" {
+			c.S.Bad("R-C14-describe-param", key, c.Pos(pos), fmt.Sprintf("%s is given a connection to describe but reads %s of the connection that runs the command (ctx.cs): CLIENT LIST shows the asker's value on every line", fnName(fn), bad))
+		} else {
+			c.S.OK("R-C14-describe-param", key, c.Pos(fn.Pos()), "every session field comes from the connection passed in")
+		}
+	}
+	if n == 0 {
+		c.S.Trivial("R-C14-describe-param", "none", "-", "no command-context method takes another connection's state")
+	}
+}
+
+// ---------------------------------------------------------------- R-bytes-opaque
+
+const textBytesOpaque = "R-bytes-opaque: text that comes from a client (a key name, a value, a pattern, a field) is handled as bytes: it is never converted to []rune, ranged over as a string (which decodes UTF-8) or measured with unicode/utf8 — a value that is not valid UTF-8 would be altered (every invalid byte becomes U+FFFD, so two different keys match the same pattern and LCS returns bytes neither value contains), and lengths and `?` would count characters where Redis counts bytes. Text the server composed itself (a local strings.Builder, constants) may be handled as characters"
+
+// asciiTestsOnly: the characters of a ranged-over string are only compared with ASCII constants (`ch < 33`) and the
+// position is not used: a byte loop would decide the same.
+func asciiTestsOnly(r *ssa.Range) bool {
+	for _, nx := range referrers(r) {
+		next, ok := nx.(*ssa.Next)
+		if !ok {
+			return false
+		}
+		for _, u := range referrers(next) {
+			ex, ok := u.(*ssa.Extract)
+			if !ok {
+				return false
+			}
+			switch ex.Index {
+			case 0: // more?
+			case 1: // position
+				if len(referrers(ex)) > 0 {
+					return false
+				}
+			case 2: // character
+				for _, use := range referrers(ex) {
+					bo, ok := use.(*ssa.BinOp)
+					if !ok {
+						return false
+					}
+					switch bo.Op {
+					case token.LSS, token.LEQ, token.GTR, token.GEQ, token.EQL, token.NEQ:
+					default:
+						return false
+					}
+					other := bo.Y
+					if other == ssa.Value(ex) {
+						other = bo.X
+					}
+					if k, isC := constInt(other); !isC || k < 0 || k > 127 {
+						return false
+					}
+				}
+			}
+		}
+	}
+	return true
+}
+
+func ruleBytesOpaque(c *Ctx) {
+	c.S.Rule("R-bytes-opaque", textBytesOpaque, 1)
+	// serverText: built in this function from a local builder or constants
+	var serverText func(v ssa.Value, depth int) bool
+	serverText = func(v ssa.Value, depth int) bool {
+		if depth > 4 {
+			return false
+		}
+		switch x := v.(type) {
+		case *ssa.Const:
+			return true
+		case *ssa.Call:
+			if g := x.Call.StaticCallee(); g != nil {
+				switch g.String() {
+				case "(*strings.Builder).String", "(*bytes.Buffer).String":
+					if al, ok := x.Call.Args[0].(*ssa.Alloc); ok && !al.Heap {
+						return true
+					}
+					_, isAlloc := x.Call.Args[0].(*ssa.Alloc)
+					return isAlloc
+				case "strconv.Itoa", "strconv.FormatInt", "strconv.FormatUint", "strconv.FormatFloat":
+					return true
+				}
+			}
+		case *ssa.Phi:
+			for _, e := range x.Edges {
+				if !serverText(e, depth+1) {
+					return false
+				}
+			}
+			return true
+		case *ssa.BinOp:
+			return x.Op == token.ADD && serverText(x.X, depth+1) && serverText(x.Y, depth+1)
+		case *ssa.Parameter:
+			// a helper that is only ever handed text the server composed
+			fn := x.Parent()
+			idx := -1
+			for i, p := range fn.Params {
+				if p == x {
+					idx = i
+				}
+			}
+			node := c.CG.Nodes[fn]
+			if node == nil || idx < 0 || len(node.In) == 0 {
+				return false
+			}
+			for _, e := range node.In {
+				args := e.Site.Common().Args
+				if e.Site.Common().IsInvoke() || idx >= len(args) || !serverText(args[idx], depth+1) {
+					return false
+				}
+			}
+			return true
+		}
+		return false
+	}
+	isString := func(t types.Type) bool {
+		b, ok := t.Underlying().(*types.Basic)
+		return ok && b.Info()&types.IsString != 0
+	}
+	isRunes := func(t types.Type) bool {
+		s, ok := t.Underlying().(*types.Slice)
+		if !ok {
+			return false
+		}
+		b, ok := s.Elem().Underlying().(*types.Basic)
+		return ok && b.Kind() == types.Int32
+	}
+	n := 0
+	for _, fn := range c.SrcFuncs() {
+		k := 0
+		for _, in := range instrsOf(fn) {
+			var operand ssa.Value
+			what := ""
+			switch x := in.(type) {
+			case *ssa.Convert:
+				if isString(x.X.Type()) && isRunes(x.Type()) {
+					operand, what = x.X, "converted to []rune"
+				}
+			case *ssa.Range:
+				if isString(x.X.Type()) {
+					operand, what = x.X, "ranged over as a string (decodes UTF-8)"
+					if asciiTestsOnly(x) {
+						k++
+						n++
+						c.S.OK("R-bytes-opaque", fmt.Sprintf("%s:text-as-characters#%d", fnName(fn), k), c.Pos(c.InstrPos(in)), "the characters are only compared with ASCII constants: a byte loop decides the same")
+						operand = nil
+					}
+				}
+			case *ssa.Call:
+				if g := x.Call.StaticCallee(); g != nil && g.Pkg != nil && g.Pkg.Pkg.Path() == "unicode/utf8" && len(x.Call.Args) > 0 {
+					if t := x.Call.Args[0].Type(); isString(t) || types.Identical(t.Underlying(), types.NewSlice(types.Typ[types.Byte])) {
+						operand, what = x.Call.Args[0], "measured/decoded with utf8."+g.Name()
+					}
+				}
+			}
+			if operand == nil {
+				continue
+			}
+			k++
+			n++
+			key := fmt.Sprintf("%s:text-as-characters#%d", fnName(fn), k)
+			if serverText(operand, 0) {
+				c.S.OK("R-bytes-opaque", key, c.Pos(c.InstrPos(in)), "text composed by the server itself")
+			} else {
+				c.S.Bad("R-bytes-opaque", key, c.Pos(c.InstrPos(in)), fmt.Sprintf("in %s text that can come from a client is %s: bytes that are not valid UTF-8 are altered and lengths count characters instead of bytes", fnName(fn), what))
+			}
+		}
+	}
+	if n == 0 {
+		c.S.Trivial("R-bytes-opaque", "none", "-", "no text is handled as characters anywhere in the package")
+	}
+}
+
+// ---------------------------------------------------------------- R-C07-absolute-deadline
+
+const textAbsDeadline = "R-C07-absolute-deadline: a deadline given as an absolute time (EXAT, PXAT, EXPIREAT, PEXPIREAT: built with time.Unix / time.UnixMilli from the argument) is that time — nothing derived from the current time is added to it. All sibling sites use the argument as it is; `time.Unix(t, 0).Add(now.Nanosecond()…)` makes SET … EXAT t expire up to a second after t and PEXPIRETIME report a time nobody set"
+
+func ruleC07AbsDeadline(c *Ctx) {
+	c.S.Rule("R-C07-absolute-deadline", textAbsDeadline, 1)
+	var fromNow func(v ssa.Value, depth int, seen map[ssa.Value]bool) bool
+	fromNow = func(v ssa.Value, depth int, seen map[ssa.Value]bool) bool {
+		if v == nil || depth > 8 || seen[v] {
+			return false
+		}
+		seen[v] = true
+		switch x := v.(type) {
+		case *ssa.Call:
+			if g := x.Call.StaticCallee(); g != nil && g.String() == "time.Now" {
+				return true
+			}
+			for _, a := range x.Call.Args {
+				if fromNow(a, depth+1, seen) {
+					return true
+				}
+			}
+		case *ssa.BinOp:
+			return fromNow(x.X, depth+1, seen) || fromNow(x.Y, depth+1, seen)
+		case *ssa.Convert:
+			return fromNow(x.X, depth+1, seen)
+		case *ssa.ChangeType:
+			return fromNow(x.X, depth+1, seen)
+		case *ssa.Phi:
+			for _, e := range x.Edges {
+				if fromNow(e, depth+1, seen) {
+					return true
+				}
+			}
+		case *ssa.UnOp:
+			if al, ok := x.X.(*ssa.Alloc); ok && x.Op == token.MUL {
+				for _, r := range referrers(al) {
+					if st, ok := r.(*ssa.Store); ok && st.Addr == ssa.Value(al) && fromNow(st.Val, depth+1, seen) {
+						return true
+					}
+				}
+				return false
+			}
+			return fromNow(x.X, depth+1, seen)
+		case *ssa.Extract:
+			return fromNow(x.Tuple, depth+1, seen)
+		}
+		return false
+	}
+	n := 0
+	for _, fn := range c.SrcFuncs() {
+		k := 0
+		for _, in := range instrsOf(fn) {
+			call, ok := in.(*ssa.Call)
+			if !ok {
+				continue
+			}
+			g := call.Call.StaticCallee()
+			if g == nil || (g.String() != "time.Unix" && g.String() != "time.UnixMilli" && g.String() != "time.UnixMicro") {
+				continue
+			}
+			// built from a number that does not itself come from the clock (time.Unix(now.Unix()+n, 0) is a relative deadline)
+			rel := false
+			for _, a := range call.Call.Args {
+				if fromNow(a, 0, map[ssa.Value]bool{}) {
+					rel = true
+				}
+			}
+			if rel {
+				continue
+			}
+			k++
+			n++
+			key := fmt.Sprintf("%s:absolute-time#%d", fnName(fn), k)
+			bad := ""
+			// the value and its local copies: every Add applied to it
+			vals := []ssa.Value{call}
+			for i := 0; i < len(vals) && i < 16; i++ {
+				for _, r := range referrers(vals[i]) {
+					switch u := r.(type) {
+					case *ssa.Store:
+						if al, ok := u.Addr.(*ssa.Alloc); ok && u.Val == vals[i] {
+							for _, r2 := range referrers(al) {
+								if ld, ok := r2.(*ssa.UnOp); ok && ld.Op == token.MUL && u.Block().Dominates(ld.Block()) && (u.Block() != ld.Block() || instrIndex(u) < instrIndex(ld)) && u.Block() == ld.Block() {
+									vals = append(vals, ld)
+								}
+							}
+						}
+					case *ssa.Call:
+						if h := u.Call.StaticCallee(); h != nil && h.String() == "(time.Time).Add" && len(u.Call.Args) == 2 && u.Call.Args[0] == vals[i] {
+							if fromNow(u.Call.Args[1], 0, map[ssa.Value]bool{}) {
+								bad = fmt.Sprintf("%s adds a duration derived from the current time to the absolute time built at %s", fnName(fn), c.Pos(call.Pos()))
+							}
+							vals = append(vals, u)
+						}
+					}
+				}
+			}
+			if bad != "" {
+				c.S.Bad("R-C07-absolute-deadline", key, c.Pos(call.Pos()), bad+": the key outlives the deadline the client named and PEXPIRETIME reports another time")
+			} else {
+				c.S.OK("R-C07-absolute-deadline", key, c.Pos(call.Pos()), "the absolute time is used as given")
+			}
+		}
+	}
+	if n == 0 {
+		c.S.Trivial("R-C07-absolute-deadline", "none", "-", "no absolute time is built from an argument")
+	}
+}
+
+// ---------------------------------------------------------------- R-store-replaces
+
+const textStoreReplaces = "R-store-replaces: a STORE form (SORT … STORE, SUNIONSTORE, SINTERSTORE, SDIFFSTORE) replaces its destination: every list or set it fills is one it created for this result — an allocation, a constructor, a clone — never an aggregate obtained by looking the destination up (or by look-up-or-create). Filling the looked-up object appends the result to what the destination held and keeps its deadline (RPUSH dst old; SORT src STORE dst gave [old, …] with the old TTL)"
+
+func ruleStoreReplaces(c *Ctx) {
+	c.S.Rule("R-store-replaces", textStoreReplaces, 1)
+	mm := c.M.Muts()
+	hs, err := c.M.Handlers()
+	if err != nil {
+		c.S.Undecided("R-store-replaces", "handlers", "-", err.Error())
+		return
+	}
+	isAgg := func(t types.Type) string {
+		switch {
+		case c.isPkgType(t, "storeList"):
+			return "list"
+		case c.isPkgType(t, "redisDict"):
+			return "set"
+		}
+		return ""
+	}
+	// writesParam: g stores into fields of its parameter i (a list header / dictionary), directly or by passing it on
+	var writesParam func(g *ssa.Function, i int, depth int) bool
+	writesParam = func(g *ssa.Function, i int, depth int) bool {
+		if g == nil || len(g.Blocks) == 0 || depth > 3 || i >= len(g.Params) {
+			return false
+		}
+		if i == 0 && (mm.dictStore[g] || mm.dictRem[g]) {
+			return true
+		}
+		p := g.Params[i]
+		for _, in := range instrsOf(g) {
+			switch x := in.(type) {
+			case *ssa.Store:
+				if fa, ok := x.Addr.(*ssa.FieldAddr); ok && fa.X == ssa.Value(p) {
+					return true
+				}
+			case ssa.CallInstruction:
+				for _, h := range c.CalleesData(x) {
+					if !c.InPkg(h) || h == g {
+						continue
+					}
+					for j, a := range x.Common().Args {
+						if a == ssa.Value(p) && writesParam(h, j, depth+1) {
+							return true
+						}
+					}
+				}
+			}
+		}
+		return false
+	}
+	var fresh func(v ssa.Value, depth int, seen map[ssa.Value]bool) bool
+	fresh = func(v ssa.Value, depth int, seen map[ssa.Value]bool) bool {
+		if v == nil || depth > 6 {
+			return false
+		}
+		if seen[v] {
+			return true
+		}
+		seen[v] = true
+		if isFresh(v) {
+			return true
+		}
+		switch x := v.(type) {
+		case *ssa.Phi:
+			for _, e := range x.Edges {
+				if !isNilConst(e) && !fresh(e, depth+1, seen) {
+					return false
+				}
+			}
+			return true
+		case *ssa.Call:
+			cals := c.CalleesData(x)
+			if len(cals) == 0 {
+				return false
+			}
+			for _, g := range cals {
+				if !returnsFreshAt(c, g, 0, fresh, depth+1, seen) {
+					return false
+				}
+			}
+			return true
+		case *ssa.Extract:
+			call, ok := x.Tuple.(*ssa.Call)
+			if !ok {
+				return false
+			}
+			cals := c.CalleesData(call)
+			if len(cals) == 0 {
+				return false
+			}
+			for _, g := range cals {
+				if !returnsFreshAt(c, g, x.Index, fresh, depth+1, seen) {
+					return false
+				}
+			}
+			return true
+		case *ssa.UnOp:
+			if x.Op != token.MUL {
+				return false
+			}
+			cell := x.X
+			if fv, ok := cell.(*ssa.FreeVar); ok {
+				// a captured variable: the cell in the enclosing function
+				fn := fv.Parent()
+				for i, v2 := range fn.FreeVars {
+					if v2 != fv || fn.Parent() == nil {
+						continue
+					}
+					for _, in := range instrsOf(fn.Parent()) {
+						if mc, ok := in.(*ssa.MakeClosure); ok && mc.Fn == ssa.Value(fn) && i < len(mc.Bindings) {
+							cell = mc.Bindings[i]
+						}
+					}
+				}
+			}
+			if al, ok := cell.(*ssa.Alloc); ok {
+				n := 0
+				var visit func(v ssa.Value) bool
+				visit = func(v ssa.Value) bool {
+					for _, r := range referrers(v) {
+						switch u := r.(type) {
+						case *ssa.Store:
+							if u.Addr == v {
+								n++
+								if !isNilConst(u.Val) && !fresh(u.Val, depth+1, seen) {
+									return false
+								}
+							}
+						case *ssa.MakeClosure:
+							// stores made by closures that capture the cell
+							if g, ok := u.Fn.(*ssa.Function); ok {
+								for i, b := range u.Bindings {
+									if b == v && i < len(g.FreeVars) && !visit(g.FreeVars[i]) {
+										return false
+									}
+								}
+							}
+						}
+					}
+					return true
+				}
+				return visit(al) && n > 0
+			}
+		}
+		return false
+	}
+	n := 0
+	for _, tok := range []string{"sort", "sort_ro", "sunionstore", "sinterstore", "sdiffstore"} {
+		h := hs[tok]
+		if h == nil {
+			continue
+		}
+		reach := c.M.Reach(h)
+		k := 0
+		var fns []*ssa.Function
+		for f := range reach {
+			fns = append(fns, f)
+		}
+		sort.Slice(fns, func(i, j int) bool { return fnName(fns[i]) < fnName(fns[j]) })
+		for _, f := range fns {
+			for _, in := range instrsOf(f) {
+				call, ok := in.(ssa.CallInstruction)
+				if !ok {
+					continue
+				}
+				for _, g := range c.CalleesData(call) {
+					if !c.InPkg(g) {
+						continue
+					}
+					for i, a := range call.Common().Args {
+						kind := isAgg(a.Type())
+						if kind == "" || !writesParam(g, i, 0) {
+							continue
+						}
+						if _, isParam := a.(*ssa.Parameter); isParam {
+							continue // judged where the caller gets its argument from
+						}
+						if _, isKs := loadedField(a); isKs == c.Field("dataStore", "data") && isKs != nil {
+							continue // the keyspace itself: installing the destination
+						}
+						k++
+						n++
+						key := fmt.Sprintf("%s:%s:fills#%d", tok, fnName(f), k)
+						if fresh(a, 0, map[ssa.Value]bool{}) {
+							c.S.OK("R-store-replaces", key, c.Pos(call.Pos()), fmt.Sprintf("the %s that %s fills was created for this result", kind, fnName(g)))
+						} else {
+							c.S.Bad("R-store-replaces", key, c.Pos(call.Pos()), fmt.Sprintf("%s (reached from %s) lets %s fill a %s that can be one it looked up: the result is added to what the destination held and the old deadline stays", fnName(f), strings.ToUpper(tok), fnName(g), kind))
+						}
+					}
+				}
+			}
+		}
+	}
+	if n == 0 {
+		c.S.Trivial("R-store-replaces", "none", "-", "no STORE form fills an aggregate through a writing function")
+	}
+}
+
+// returnsFreshAt: every return of g yields, at result idx, a value that `fresh` accepts (or nil).
+func returnsFreshAt(c *Ctx, g *ssa.Function, idx int, fresh func(ssa.Value, int, map[ssa.Value]bool) bool, depth int, seen map[ssa.Value]bool) bool {
+	if g == nil || len(g.Blocks) == 0 || !c.InPkg(g) {
+		return false
+	}
+	n := 0
+	for _, b := range g.Blocks {
+		ret, ok := b.Instrs[len(b.Instrs)-1].(*ssa.Return)
+		if !ok || idx >= len(ret.Results) {
+			continue
+		}
+		n++
+		if isNilConst(ret.Results[idx]) {
+			continue
+		}
+		if !fresh(ret.Results[idx], depth, seen) {
+			return false
+		}
+	}
+	return n > 0
+}
+
+// ---------------------------------------------------------------- R-string-payload-nonnil
+
+const textStringNonNil = "R-string-payload-nonnil: the accessor of a string value answers nil for “this key holds another type”, and its callers test the result against nil; therefore a byte slice stored as the payload of a string key is never nil — it is a conversion of a string, a make, an append onto or a slice of such a value (through merges, cells, parameters at every call site and results of helpers). A variable that starts nil and is assigned in every round of a loop over the command's key list counts as assigned (the grammar requires one key). A nil slice can come from a decoder (gob leaves an empty slice nil): SET k \"\"; restart; GET k answered WRONGTYPE"
+
+// cellNonNil: the local cell al holds a non-nil value just before instruction idx of block b, on every path: the last
+// store before that point stores a non-nil value, or the path comes through the non-nil side of a test of the cell's
+// value; a call that is given the cell's address (a decoder) makes it unknown again.
+func cellNonNil(al *ssa.Alloc, b *ssa.BasicBlock, idx int, seen map[*ssa.BasicBlock]bool, valNonNil func(ssa.Value, *ssa.BasicBlock) bool) bool {
+	takesAddr := func(in ssa.Instruction) bool {
+		call, ok := in.(ssa.CallInstruction)
+		if !ok {
+			return false
+		}
+		for _, a := range call.Common().Args {
+			if a == ssa.Value(al) {
+				return true
+			}
+			if mi, ok := a.(*ssa.MakeInterface); ok && mi.X == ssa.Value(al) {
+				return true
+			}
+		}
+		return false
+	}
+	for i := idx - 1; i >= 0; i-- {
+		in := b.Instrs[i]
+		if st, ok := in.(*ssa.Store); ok && st.Addr == ssa.Value(al) {
+			return valNonNil(st.Val, b)
+		}
+		if takesAddr(in) || in == ssa.Instruction(al) {
+			return false // handed to a writer, or the cell's creation (its zero value is nil)
+		}
+	}
+	if len(b.Preds) == 0 {
+		return false // the zero value
+	}
+	for _, p := range b.Preds {
+		// the edge p→b is the non-nil side of a test of this cell's value, and nothing wrote the cell after the load
+		if ifi, ok := p.Instrs[len(p.Instrs)-1].(*ssa.If); ok && len(p.Succs) == 2 && p.Succs[0] != p.Succs[1] {
+			if bo, ok := ifi.Cond.(*ssa.BinOp); ok && (isNilConst(bo.X) || isNilConst(bo.Y)) {
+				other := bo.X
+				if isNilConst(other) {
+					other = bo.Y
+				}
+				if ld, ok := other.(*ssa.UnOp); ok && ld.Op == token.MUL && ld.X == ssa.Value(al) && ld.Block() == p {
+					clean := true
+					for _, in := range p.Instrs[instrIndex(ld)+1:] {
+						if st, ok := in.(*ssa.Store); ok && st.Addr == ssa.Value(al) {
+							clean = false
+						}
+						if takesAddr(in) {
+							clean = false
+						}
+					}
+					nonNilSide := (bo.Op == token.NEQ && p.Succs[0] == b) || (bo.Op == token.EQL && p.Succs[1] == b)
+					if clean && nonNilSide {
+						continue
+					}
+				}
+			}
+		}
+		if seen[p] {
+			continue // a cycle adds nothing new
+		}
+		seen[p] = true
+		if !cellNonNil(al, p, len(p.Instrs), seen, valNonNil) {
+			return false
+		}
+	}
+	return true
+}
+
+func ruleStringPayloadNonNil(c *Ctx) {
+	c.S.Rule("R-string-payload-nonnil", textStringNonNil, 1)
+	fPay := c.Field("storeKey", "payload")
+	if fPay == nil {
+		c.S.Undecided("R-string-payload-nonnil", "anchors", "-", "storeKey.payload not found")
+		return
+	}
+	isBytes := func(t types.Type) bool {
+		s, ok := t.Underlying().(*types.Slice)
+		if !ok {
+			return false
+		}
+		b, ok := s.Elem().Underlying().(*types.Basic)
+		return ok && b.Kind() == types.Uint8
+	}
+	// tri-state: 1 never nil, -1 a nil can reach here (a nil constant, a zero-valued cell, a cell a decoder filled),
+	// 0 not decided (the value comes through a struct field, an interface, an unknown producer)
+	min := func(a, b int) int {
+		if a < b {
+			return a
+		}
+		return b
+	}
+	var nonNil func(v ssa.Value, at *ssa.BasicBlock, depth int, seen map[ssa.Value]bool) int
+	nonNil = func(v ssa.Value, at *ssa.BasicBlock, depth int, seen map[ssa.Value]bool) int {
+		if v == nil || depth > 8 {
+			return 0
+		}
+		if seen[v] {
+			return 1
+		}
+		seen[v] = true
+		if isNilConst(v) {
+			return -1
+		}
+		// a dominating test `v != nil` / `v == nil` (other side) on this very value
+		if at != nil {
+			for b := at; b != nil && b.Idom() != nil; b = b.Idom() {
+				d := b.Idom()
+				ifi, ok := d.Instrs[len(d.Instrs)-1].(*ssa.If)
+				if !ok {
+					continue
+				}
+				bo, ok := ifi.Cond.(*ssa.BinOp)
+				if !ok || !(isNilConst(bo.X) || isNilConst(bo.Y)) {
+					continue
+				}
+				other := bo.X
+				if isNilConst(other) {
+					other = bo.Y
+				}
+				if other != v && !sameSliceValue(other, v) {
+					continue
+				}
+				for i, s := range d.Succs {
+					if (s == b || s.Dominates(b)) && len(s.Preds) == 1 {
+						if (bo.Op == token.NEQ && i == 0) || (bo.Op == token.EQL && i == 1) {
+							return 1
+						}
+					}
+				}
+			}
+		}
+		switch x := v.(type) {
+		case *ssa.MakeSlice:
+			return 1
+		case *ssa.Convert:
+			if b, ok := x.X.Type().Underlying().(*types.Basic); ok && b.Info()&types.IsString != 0 {
+				return 1 // []byte(s) is non-nil also for the empty string
+			}
+			return nonNil(x.X, at, depth+1, seen)
+		case *ssa.ChangeType:
+			return nonNil(x.X, at, depth+1, seen)
+		case *ssa.Slice:
+			// a[i:j] of a non-nil slice or of an array is non-nil
+			if _, isPtr := x.X.Type().Underlying().(*types.Pointer); isPtr {
+				return 1
+			}
+			return nonNil(x.X, at, depth+1, seen)
+		case *ssa.Phi:
+			r := 1
+			for i, e := range x.Edges {
+				if isNilConst(e) && blockInCycle(x.Block()) && len(x.Edges) > 1 {
+					// `var r []byte; for … { if r == nil { r = make(…) } … }`: nil only if the loop over the command's
+					// key list runs zero times, which the grammar excludes (A7: numkeys ≥ 1)
+					continue
+				}
+				r = min(r, nonNil(e, x.Block().Preds[i], depth+1, seen))
+			}
+			return r
+		case *ssa.Call:
+			if b, ok := x.Call.Value.(*ssa.Builtin); ok && b.Name() == "append" {
+				if nonNil(x.Call.Args[0], at, depth+1, seen) == 1 {
+					return 1
+				}
+				return 0 // append(nil, xs...) is nil only when xs is empty: not decided
+			}
+			cals := c.CalleesData(x)
+			if len(cals) == 0 {
+				return 0
+			}
+			r := 1
+			for _, g := range cals {
+				if !c.InPkg(g) {
+					switch g.String() {
+					case "strconv.AppendInt", "strconv.AppendFloat", "strconv.AppendUint", "(*bytes.Buffer).Bytes":
+						continue
+					}
+					r = min(r, 0)
+					continue
+				}
+				n := 0
+				for _, b := range g.Blocks {
+					if ret, ok := b.Instrs[len(b.Instrs)-1].(*ssa.Return); ok && len(ret.Results) > 0 {
+						n++
+						r = min(r, nonNil(ret.Results[0], b, depth+1, seen))
+					}
+				}
+				if n == 0 {
+					r = min(r, 0)
+				}
+			}
+			return r
+		case *ssa.UnOp:
+			if al, ok := x.X.(*ssa.Alloc); ok && x.Op == token.MUL {
+				// a local cell: every store non-nil, and the address is not handed to anybody (a decoder)
+				n, r := 0, 1
+				for _, ref := range referrers(al) {
+					switch u := ref.(type) {
+					case *ssa.Store:
+						if u.Addr == ssa.Value(al) {
+							n++
+							r = min(r, nonNil(u.Val, u.Block(), depth+1, seen))
+						}
+					case *ssa.UnOp:
+					default:
+						// escapes (&str passed to a decoder): what the cell holds here is decided along the paths
+						if cellNonNil(al, x.Block(), instrIndex(x), map[*ssa.BasicBlock]bool{}, func(v ssa.Value, b *ssa.BasicBlock) bool { return nonNil(v, b, depth+1, seen) == 1 }) {
+							return 1
+						}
+						return -1
+					}
+				}
+				if n == 0 {
+					return -1 // only ever its zero value
+				}
+				return r
+			}
+			return 0
+		case *ssa.Parameter:
+			fn := x.Parent()
+			idx := -1
+			for i, p := range fn.Params {
+				if p == x {
+					idx = i
+				}
+			}
+			node := c.CG.Nodes[fn]
+			if node == nil || idx < 0 || len(node.In) == 0 {
+				return 0
+			}
+			r := 1
+			for _, e := range node.In {
+				args := e.Site.Common().Args
+				if e.Site.Common().IsInvoke() || idx >= len(args) {
+					r = min(r, 0)
+					continue
+				}
+				r = min(r, nonNil(args[idx], e.Site.Block(), depth+1, seen))
+			}
+			return r
+		}
+		return 0
+	}
+	n := 0
+	for _, fn := range c.SrcFuncs() {
+		k := 0
+		for _, in := range instrsOf(fn) {
+			var val ssa.Value
+			if st, ok := isStoreTo(in, fPay); ok {
+				val = st.Val
+			}
+			if val == nil {
+				continue
+			}
+			// through the interface conversion; composite literals store the field at construction too (isStoreTo sees them)
+			var leaves []ssa.Value
+			for _, leaf := range phiLeaves(val, map[ssa.Value]bool{}) {
+				if mi, ok := leaf.(*ssa.MakeInterface); ok && isBytes(mi.X.Type()) {
+					leaves = append(leaves, mi.X)
+				}
+			}
+			if len(leaves) == 0 {
+				// a cell of type any holding the payload (`var payload any … payload = str`)
+				if u, ok := val.(*ssa.UnOp); ok && u.Op == token.MUL {
+					if al, ok := u.X.(*ssa.Alloc); ok {
+						for _, r := range referrers(al) {
+							if st, ok := r.(*ssa.Store); ok && st.Addr == ssa.Value(al) {
+								if mi, ok := st.Val.(*ssa.MakeInterface); ok && isBytes(mi.X.Type()) {
+									leaves = append(leaves, mi.X)
+								}
+							}
+						}
+					}
+				}
+			}
+			for _, leaf := range leaves {
+				k++
+				n++
+				key := fmt.Sprintf("%s:string-payload#%d", fnName(fn), k)
+				var blk *ssa.BasicBlock
+				if li, ok := leaf.(ssa.Instruction); ok {
+					blk = li.Block()
+				}
+				for _, r := range referrers(leaf) {
+					if m, ok := r.(*ssa.MakeInterface); ok {
+						blk = m.Block()
+					}
+				}
+				switch nonNil(leaf, blk, 0, map[ssa.Value]bool{}) {
+				case 1:
+					c.S.OK("R-string-payload-nonnil", key, c.Pos(c.InstrPos(in)), "the stored slice is a conversion, a make, or built on one")
+				case 0:
+					c.S.Trivial("R-string-payload-nonnil", key, c.Pos(c.InstrPos(in)), "not decided: the slice comes through a struct field or a producer this rule does not follow (no nil source found)")
+				default:
+					c.S.Bad("R-string-payload-nonnil", key, c.Pos(c.InstrPos(in)), fmt.Sprintf("%s can store a nil byte slice as the value of a string key: every reader takes nil for “wrong type” (GET answers WRONGTYPE for the empty value)", fnName(fn)))
+				}
+			}
+		}
+	}
+	if n == 0 {
+		c.S.Undecided("R-string-payload-nonnil", "sites", "-", "no byte slice is stored as a payload")
+	}
+}
